@@ -1,5 +1,5 @@
 import sys
-# unmarshalTimestamp *time.Time: an empty value keeps the previous time
+# unmarshalTimestamp *time.Time: an empty value keeps what the destination held
 p=sys.argv[1]+'/marshal.go'; s=open(p).read()
 old="""		if len(data) == 0 {
 			*v = time.Time{}
